@@ -29,7 +29,8 @@ def run_one(prop, patch, extra_props=()):
         for p in (prop,) + tuple(extra_props):
             env = dict(os.environ, MB2_REPO=repo, MB2_OUT_DIR=os.path.join(scratch, "out"),
                        MB2_EVIDENCE_DIR=os.path.join(scratch, "ev"))
-            r = subprocess.run([os.path.join(HERE, "check"), p], env=env, stdout=subprocess.PIPE, stderr=subprocess.STDOUT, text=True)
+            extra = ["--tier", "thorough"] if "thorough" in os.path.basename(patch) else []
+            r = subprocess.run([os.path.join(HERE, "check"), p] + extra, env=env, stdout=subprocess.PIPE, stderr=subprocess.STDOUT, text=True)
             keys = []
             vp = os.path.join(scratch, "out", "%s.violations.json" % p)
             if os.path.exists(vp):
